@@ -321,6 +321,19 @@ def run_check(cls, argv=None):
     seed = int(os.environ.get("VERIF_SEED", "0") or 0)
     setup_env()
     t0 = time.time()
+    # a check that runs out of time is a harness problem (exit 2), never a VIOLATION
+    import signal
+    budget = int(os.environ.get("VERIF_TIMEOUT", "1500" if args.tier == "quick" else "14400"))
+
+    def on_alarm(signum, frame):
+        print("%s TIMEOUT after %d s (tier %s) - no verdict" % (cls.id, budget, args.tier))
+        sys.stdout.flush()
+        os._exit(2)
+    try:
+        signal.signal(signal.SIGALRM, on_alarm)
+        signal.alarm(budget)
+    except (ValueError, AttributeError):
+        pass
     chk = cls(args.tier, seed)
     pid = chk.id
     os.makedirs(EVID, exist_ok=True)
